@@ -1018,8 +1018,10 @@ func ruleC18Selection(c *Ctx) {
 			for k := range p.Asg {
 				if tb.Seen[k] == "found" {
 					kk := p.KeyTerm[k].Args[0].Args[1]
-					a, ok := callArgs(kk, "fmt.Sprintf")
-					if !ok || a[0].Name != `"%v"` || !onlyArg(a[1], "0") {
+					// the name of a constant is the decimal text of the argument (TextOf): the %v text of 1500000.0 is 1.5e+06
+					if a, ok := callArgs(kk, "fmt.Sprintf"); ok && len(a) == 2 && a[0].Name == `"%v"` && onlyArg(a[1], "0") {
+						why = append(why, "the constant is looked up by the %v text of args[0]: a numeric name of a million and above is looked up as 1.5e+06, not 1500000")
+					} else if ta, isT := callArgs(kk, "TextOf"); !isT || len(ta) != 1 || !onlyArg(ta[0], "0") {
 						why = append(why, "the constant is looked up by "+kk.String()+", not by the text of args[0]")
 					}
 				}
